@@ -780,6 +780,9 @@ func (e *Exec) runFrame(fr *frame) Value {
 			if e.cfg.MaxSteps > 0 && e.steps > e.cfg.MaxSteps {
 				e.abort("budget", "step budget exceeded")
 			}
+			if e.steps&0xffff == 0 && e.cfg.MaxWallS > 0 && time.Since(e.started) > time.Duration(e.cfg.MaxWallS+60)*time.Second {
+				e.abort("budget", "wall-clock budget exceeded inside a path")
+			}
 			if p := ins.Pos(); p.IsValid() {
 				fr.pos = p
 			}
